@@ -72,8 +72,8 @@ RecvProbe(listener, t) ==
   /\ act' = [name |-> "RecvProbe", listener |-> listener, id |-> nextId, t |-> t]
   /\ UNCHANGED <<stressed, upQ, peerQ, hny, peer, buf, dec, drate>>
 
-\* a span
-RecvSpan(listener, t, cr) ==
+\* a span, routed with the stress flag read as sv
+RecvSpanWith(listener, t, cr, sv, nm) ==
   LET id == nextId
       crr == Max(cr, 1)
       known == dec[t] # "none"
@@ -83,8 +83,8 @@ RecvSpan(listener, t, cr) ==
   IN
   /\ nextId <= MaxEvents
   /\ nextId' = nextId + 1
-  /\ act' = [name |-> "RecvSpan", listener |-> listener, id |-> id, t |-> t, crate |-> cr]
-  /\ IF stressed
+  /\ act' = [name |-> nm, listener |-> listener, id |-> id, t |-> t, crate |-> cr]
+  /\ IF sv
      THEN /\ dec' = IF known THEN dec ELSE [dec EXCEPT ![t] = IF skeep THEN "skept" ELSE "sdropped"]
           /\ drate' = IF known THEN drate ELSE [drate EXCEPT ![t] = IF skeep THEN SRate ELSE 0]
           /\ buf' = buf
@@ -108,7 +108,17 @@ RecvSpan(listener, t, cr) ==
                   /\ UNCHANGED <<buf, dec, drate, peerQ>>
              ELSE /\ buf' = [buf EXCEPT ![t] = @ \cup {[id |-> id, crate |-> cr]}]
                   /\ UNCHANGED <<upQ, peerQ, dec, drate>>
-  /\ UNCHANGED <<stressed, hny, peer>>
+  /\ UNCHANGED <<hny, peer>>
+
+\* a span routed while the stress state is stable
+RecvSpan(listener, t, cr) == RecvSpanWith(listener, t, cr, stressed, "RecvSpan") /\ stressed' = stressed
+
+\* a span routed while stress relief switches (the StressRelief goroutine flips the flag concurrently):
+\* the event must be routed according to ONE reading of the flag - either the old or the new value -
+\* never a mixture of the two
+RecvSpanFlip(listener, t, cr) ==
+  /\ \E sv \in BOOLEAN : RecvSpanWith(listener, t, cr, sv, "RecvSpanFlip")
+  /\ stressed' = ~stressed
 
 \* the collector's send tick: every buffered trace is decided (kept at rate 1) and forwarded
 CollectTick ==
@@ -138,6 +148,7 @@ SetStress(b) ==
 Next == \/ \E li \in {"incoming", "peer"}, cr \in CRates : RecvPlain(li, cr)
         \/ \E li \in {"incoming", "peer"}, t \in Traces : RecvProbe(li, t)
         \/ \E li \in {"incoming", "peer"}, t \in Traces, cr \in CRates : RecvSpan(li, t, cr)
+        \/ \E li \in {"incoming"}, t \in Traces, cr \in {0} : RecvSpanFlip(li, t, cr)
         \/ CollectTick
         \/ \E w \in {"upstream", "peer"} : Dispatch(w)
         \/ \E b \in BOOLEAN : SetStress(b)
